@@ -26,7 +26,7 @@ struct FileFmt {
 }
 
 pub fn path() -> String {
-    std::env::var("VCHECK_FINDINGS").unwrap_or_else(|_| "/verif/known_findings.json".to_string())
+    std::env::var("VCHECK_FINDINGS").unwrap_or_else(|_| format!("{}/known_findings.json", super::root()))
 }
 
 pub fn load(property: &str) -> Result<Vec<Finding>, String> {
